@@ -1,7 +1,132 @@
 """C03 - shell output reaches the operator byte-exact, in order, up to end of stream."""
-import json, os
+import fcntl, json, os, re, select, signal, socket, ssl, struct, termios, time
 import brokerlib as B
 import vlib
+
+
+def realtty_round(binp, d, speed, nlines, rng):
+    """The real program on a pty (prompt empty), a real TLS /io shell which sends numbered lines in chunks cut anywhere; the terminal is read
+    fast, slowly, or - 'nonblock' - is switched to non-blocking mode by another holder of the tty (ssh, tmux) and not read for a while."""
+    os.makedirs(d, exist_ok=True)
+    argv = [binp, "-prompt", "", "-listen-address", "127.0.0.1:0", "-tls-certificate-cache", os.path.join(d, "cert.txtar")]
+    env = dict(os.environ, HOME=d, XDG_CACHE_HOME=os.path.join(d, "xdg")); env.pop("CURLREVSHELL_LOG", None)
+    master, slave = os.openpty()
+    fcntl.ioctl(slave, termios.TIOCSWINSZ, struct.pack("HHHH", 40, 200, 0, 0))
+    pid = os.fork()
+    if pid == 0:
+        try:
+            os.setsid(); fcntl.ioctl(slave, termios.TIOCSCTTY, 0)
+            os.dup2(slave, 0); os.dup2(slave, 1); os.dup2(slave, 2); os.close(master); os.chdir(d)
+            os.execvpe(argv[0], argv, env)
+        finally:
+            os._exit(127)
+    out = b""
+    def pump(until=None, secs=5.0, maxread=65536, pause=0.0):
+        nonlocal out
+        t0 = time.time()
+        while time.time() - t0 < secs:
+            if until is not None and re.search(until, out):
+                return True
+            r, _, _ = select.select([master], [], [], 0.05)
+            if r:
+                try:
+                    out += os.read(master, maxread)
+                except OSError:
+                    return False
+                if pause:
+                    time.sleep(pause)
+        return until is None
+    sent = b"".join(b"L%06d:%s\n" % (k, b"x" * (k % 61)) for k in range(nlines))
+    problem = ""
+    try:
+        if not pump(rb"https://127\.0\.0\.1:(\d+)/c", 8):
+            return {"problem": "harness: the program did not start", "sent": len(sent)}
+        port = int(re.search(rb"https://127\.0\.0\.1:(\d+)/c", out).group(1))
+        ctx = ssl.create_default_context(); ctx.check_hostname = False; ctx.verify_mode = ssl.CERT_NONE
+        c = ctx.wrap_socket(socket.create_connection(("127.0.0.1", port), timeout=5))
+        c.sendall(b"POST /io HTTP/1.1\r\nHost: h\r\nTransfer-Encoding: chunked\r\n\r\n")
+        if not pump(rb"ready to go", 5):
+            return {"problem": "harness: the shell did not become ready", "sent": len(sent)}
+        pump(None, 0.3)
+        mark = len(out)
+        if speed == "nonblock":
+            fl = fcntl.fcntl(slave, fcntl.F_GETFL); fcntl.fcntl(slave, fcntl.F_SETFL, fl | os.O_NONBLOCK)
+        c.settimeout(3)
+        pos = 0
+        try:
+            while pos < len(sent):
+                n = rng.choice([1, 7, 100, 2047, 2048, 2049, 5000, 20000])
+                ch = sent[pos:pos + n]; pos += len(ch)
+                c.sendall(b"%x\r\n%s\r\n" % (len(ch), ch))
+                if speed == "fast":
+                    pump(None, 0.0)
+            c.sendall(b"0\r\n\r\n")
+        except (socket.timeout, ssl.SSLError, OSError):
+            pass            # a stalled terminal pushes back all the way to the shell
+        if speed == "nonblock":
+            time.sleep(1.0)
+            pump(None, 2.5)
+        elif speed == "slow":
+            pump(rb"Shell is gone", 40, maxread=700, pause=0.002)
+        else:
+            pump(rb"Shell is gone", 20)
+        try:
+            c.close()
+        except OSError:
+            pass
+        pump(None, 0.8)
+        try:
+            os.write(master, b"\x04")
+        except OSError:
+            pass
+        t0 = time.time()
+        while time.time() - t0 < 5:
+            pump(None, 0.1)
+            p_, st = os.waitpid(pid, os.WNOHANG)
+            if p_:
+                pid = 0
+                break
+    finally:
+        if pid:
+            os.kill(pid, signal.SIGKILL); os.waitpid(pid, 0)
+        os.close(master); os.close(slave)
+    shown = re.sub(rb"\x1b\[[0-9;?]*[A-Za-z]", b"", out[mark:]).replace(b"\r", b"")
+    p = 0
+    while p < len(shown) and p < len(sent) and shown[p] == sent[p]:
+        p += 1
+    after = shown[p:]
+    stray = re.findall(rb"L\d{6}:", after)
+    res = {"speed": speed, "sent": len(sent), "shown_prefix": p, "complete": p == len(sent), "closed_notice": b"Shell is gone" in after,
+           "after_prefix": after[:160].decode(errors="replace"), "shell_output_after_the_prefix": len(stray)}
+    if stray:
+        res["problem"] = "after %d bytes identical to what the shell sent the terminal shows other shell output (%s...)" % (p, stray[0].decode())
+    elif speed != "nonblock" and p < len(sent):
+        res["problem"] = "the output stream ended by itself and only %d of %d bytes were shown" % (p, len(sent))
+    elif p == len(sent) and speed != "nonblock" and b"Shell is gone" not in after:
+        res["problem"] = "harness: no closure notice seen"
+    return res
+
+
+def realtty_stream(run):
+    binp = os.path.join(run.rundir, "curlrevshell")
+    rc, o, e = vlib.sh(["go", "build", "-o", binp, "."], cwd=vlib.REPO, env=vlib.GOENV, timeout=600)
+    if rc != 0:
+        run.oblige("the program builds", False, (o + e).decode(errors="replace")[-1500:])
+        return
+    plan = [("fast", 400), ("slow", 1500), ("nonblock", 6000)] if run.tier == "quick" else \
+           [("fast", 400), ("fast", 5000), ("slow", 1500), ("slow", 6000), ("nonblock", 6000), ("nonblock", 20000), ("nonblock", 2500)]
+    rs = []
+    for k, (speed, nl) in enumerate(plan):
+        r = realtty_round(binp, os.path.join(run.rundir, "realtty%d" % k), speed, nl, run.rng)
+        rs.append(r)
+        if r.get("problem") and not r["problem"].startswith("harness"):
+            run.violation("realtty-" + speed, "the real program's terminal did not show a prefix of what the shell sent, byte for byte (numbered lines over real TLS, "
+                          "chunks cut anywhere; terminal read %s)" % speed, {"stream": "realtty", "input": {"terminal": speed, "lines": nl}, "detail": r})
+    run.oblige("real program on a pty, real TLS shell, %d rounds (terminal read fast / slowly / switched to non-blocking by another holder of the tty and stalled): "
+               "what is shown is a prefix of what was sent and nothing of the shell's output follows it; complete before the closure notice when the stream "
+               "ended by itself on a terminal which kept up" % len(plan), not any(r.get("problem") for r in rs), json.dumps([r for r in rs if r.get("problem")])[:1500])
+    run.stream("realtty", len(plan), len(plan), "the built binary under a pty with -prompt '', a TLS /io client sending 400-20000 numbered lines in chunks of "
+               "1..20000 bytes", rs[:3], dist={"complete_rounds": sum(1 for r in rs if r.get("complete")), "by_speed": {r.get("speed", "?"): r.get("shown_prefix") for r in rs}})
 
 TIMPORTS = "From CRS Require Import Lib.Bytes Model.Terminal Judge.Common Judge.C03T."
 TCLAUSES = {1: "the terminal did not show exactly the bytes of the Plain lines, in order (lib/opshell modified, dropped or re-encoded shell output)",
@@ -142,6 +267,7 @@ def check(run):
     hs = [B.gen_history(run.rng, run.rng.choice([10, 20, 40])) for _ in range(200 if run.tier == "quick" else 4000)]
     B.run_stream(run, binp, "histories", 3, hs, CLAUSES, "random histories (see C01)")
     terminal_stream(run)
+    realtty_stream(run)
     run.assumptions += ["x/term's Terminal.Write passes bytes through while no line is being edited (the harness does not run ReadLine); the pty's own "
                         "output processing (ONLCR) is outside the program",
                         "Ctrl+O muting happens after the operator channel (lib/opshell) and is C19's subject",
